@@ -768,7 +768,9 @@ async fn run_case<IO: Transport>(c: Case) -> String {
             }
             let mut b = match Server::builder().tls_config(tls) {
                 Ok(b) => b,
-                Err(e) => return format!("harness-error:server-tls-config:{}", classify_err(&e)),
+                // tonic refused the server's TLS configuration (e.g. a client CA bundle without a
+                // usable certificate): no server, nobody is served
+                Err(_) => return vec!["server-config-unusable"; c.clients.len()].join(" | "),
             };
             let router = b.add_service(svc);
             tokio::spawn(async move { router.serve_with_incoming_shutdown(rx_stream(rx), stop).await.map_err(|e| e.to_string()) })
@@ -781,7 +783,7 @@ async fn run_case<IO: Transport>(c: Case) -> String {
         _ => {
             let cfg = match rustls_server_config(&c) {
                 Ok(c) => Arc::new(c),
-                Err(e) => return format!("harness-error:rustls-server-config:{}", e.replace(' ', "_")),
+                Err(_) => return vec!["server-config-unusable"; c.clients.len()].join(" | "),
             };
             let acceptor = tokio_rustls::TlsAcceptor::from(cfg);
             let (ttx, trx) = tokio::sync::mpsc::channel::<tokio_rustls::server::TlsStream<IO>>(8);
@@ -1092,6 +1094,12 @@ const CORPUS: &[&str] = &[
     "tls http good notls | https good ca:ca1 | http good notls ; s1good h2 - tcp",
     "tls https good notls | http good notls | https good ca:ca1 h2:1 ; s1good plain - tcp-par",
     // server configuration alone
+    "tls https good ca:ca1 ; s1good h2 ca:junk tcp",
+    "tls https good ca:ca1 ; s1good h2 ca:broken duplex",
+    "tls https good ca:ca1 id:c1 ; s1good h2 ca:junk+opt:0 tcp",
+    "tls https good ca:ca1 ; s1good h2 ca:junk+opt:1 duplex",
+    "tls https good ca:ca1 id:c2 ; s1good h2 ca:ca1+ca:junk tcp",
+    "tls https good ca:ca1 ; s1good h2 ca:junk+ca:ca1 tcp",
     "srvcfg -",
     "srvcfg ca:ca1",
     "srvcfg id:s1good",
@@ -1130,9 +1138,11 @@ fn matrix(transport: &str, out: &mut Vec<String>) {
 const TRANSPORTS: [&str; 4] = ["tcp", "duplex", "tcp-lazy", "duplex-lazy"];
 const SERVER_CERTS: [&str; 4] = ["s1good", "s1bad", "s2good", "s1ip"];
 const ALPNS: [&str; 7] = ["h2", "h2", "none", "http11", "h2first", "h2last", "h2only"];
-const SRV_OPS: [&str; 14] = [
+const SRV_OPS: [&str; 18] = [
     "-", "-", "ca:ca1", "ca:ca1+opt:1", "ca:ca2", "ca:ca2+opt:1", "opt:1", "ca:ica1", "opt:1+ca:ca1",
     "ca:ca1+opt:1+opt:0", "ca:ca2+ca:ca1", "ca:ca1+ca:ca2+opt:1", "ico:1+ca:ca1", "ca:ica1+opt:1",
+    // a client CA bundle without a usable certificate: the server must not come up serving anyone
+    "ca:junk", "ca:junk+opt:1", "ca:ca1+ca:junk", "ca:junk+ca:ca1",
 ];
 
 fn issuer_of(servercert: &str) -> &'static str {
